@@ -4,8 +4,10 @@ import (
 	"bytes"
 	"encoding/binary"
 	"fmt"
+	"runtime"
 	"sort"
 	"strings"
+	"time"
 
 	"github.com/canopy-network/canopy/lib"
 	"github.com/canopy-network/canopy/p2p"
@@ -329,9 +331,11 @@ func runLimitCase(w *world, lc limitCase) (string, []finding, string) {
 		w.drain(qid{0, tY}) // first half of the other message is now in the receiver's assembler
 		all = append(all, other)
 	}
-	op := &sendOp{Link: 0, Topic: tX, Size: size, msg: mkMessage(1, size)}
+	op := &sendOp{Link: 0, Topic: tX, Size: size, msg: mkBigMessage(1, size, K.MaxMessageSize+K.MaxDataChunkSize)}
 	all = append(all, op)
 	w.sendNow(op)
+	w.gcEvery = 16
+	defer func() { w.gcEvery = 0; w.wire = nil; runtime.GC() }()
 	for l.sc.VerifC18QueueLen(tX) > 0 { // the big message first, then whatever is left on other topics
 		w.drain(qid{0, tX})
 	}
@@ -359,8 +363,13 @@ func runLimitCase(w *world, lc limitCase) (string, []finding, string) {
 	return desc, o.findings, o.obs
 }
 
-func runLimitCases(r *mc.Run, w *world) (out []string) {
+func runLimitCases(r *mc.Run, w *world, deadline time.Time) (out []string) {
 	for _, lc := range limitCases(r.Quick()) {
+		if time.Until(deadline) < 20*time.Second {
+			r.Exhaustive = false
+			r.Note("size-limit case %s not run (less than 20 s left)", lc.name)
+			continue
+		}
 		desc, fs, obs := runLimitCase(w, lc)
 		if len(fs) > 0 {
 			report(r, "limit:"+lc.name, fs, obs)
